@@ -50,6 +50,8 @@ WR == /\ Is("wr")
       /\ A("C05", "read-accepts-own-image", E.ok)
       /\ A("C05", "write-reports-emitted-length", E.ret = E.emitted)
       /\ A("C05", "rewrite-reproduces-bytes", E.h1 = E.h2 /\ E.len2 = E.emitted)
+      (* a writer may take fewer bytes than offered (std::io::Write): the image and the count are the same *)
+      /\ ("short_ok" \in DOMAIN E => A("C05", "short-writes-are-completed", E.short_ok))
       (* from here on the session runs on a RELOADED dictionary: every tokenization clause is
          also a clause of C05 ("behaves identically to D"), see OnTok *)
       /\ dict' = [x \in DOMAIN dict \cup {"reloaded"} |-> IF x = "reloaded" THEN TRUE ELSE dict[x]]
